@@ -14,7 +14,8 @@
 (***************************************************************************)
 EXTENDS Asn1Value, TLC, Json, IOUtils
 
-CONSTANTS MaxDepth,      \* nesting depth explored by BFS
+CONSTANTS Big,           \* TRUE: also the big-payload cases (lengths around 128 / 16K / 64K)
+          MaxDepth,      \* nesting depth explored by BFS
           Rich,          \* TRUE: full tables, FALSE: reduced (quick) tables
           TagDefs        \* subset of {"E","I","A"} explored for the module default
 
@@ -124,7 +125,40 @@ StrTypes ==
      TStr("Universal", Sz(1, 1, FALSE), NoAl),
      TStr("IA5", Sz(1, 2, TRUE), NoAl), TStr("Visible", SzMin(1), NoAl) >>
 
-PrimTypes == <<TBool, TNull, TOid, TReal>> \o IntTypes \o EnumTypes \o BitsTypes \o OctsTypes \o StrTypes
+\* many items / many additions: normally-small numbers >= 64, 8-bit indices
+ManyEnum(nroot, nadd) ==
+  TEnum([i \in 1..nroot |-> It("r" \o ToString(i), i - 1)], nadd > 0,
+        [i \in 1..nadd |-> It("a" \o ToString(i), nroot + i - 1)])
+ManyAdditions(n) ==
+  TSeq("SEQ", <<Mand("pre", TBool)>>, TRUE, [i \in 1..n |-> Add1(Opt("a" \o ToString(i), TBool))])
+ManyAlternatives(nroot, nadd) ==
+  TChoice([i \in 1..nroot |-> Alt("r" \o ToString(i), WithTag(TBool, Tag("C", i - 1, "D")))], nadd > 0,
+          [i \in 1..nadd |-> Alt("a" \o ToString(i), WithTag(TNull, Tag("C", nroot + i - 1, "D")))])
+ManyTypes == IF Rich THEN <<ManyEnum(130, 0), ManyEnum(3, 70), ManyEnum(257, 0), ManyAdditions(65), ManyAdditions(3),
+                            ManyAlternatives(3, 66), ManyAlternatives(130, 0)>>
+             ELSE <<ManyEnum(3, 70), ManyAdditions(65)>>
+
+PrimTypes == <<TBool, TNull, TOid, TReal>> \o IntTypes \o EnumTypes \o BitsTypes \o OctsTypes \o StrTypes \o ManyTypes
+
+\* big payloads: only at depth 0, marked by gDepth = BigMark
+BigMark == 100
+BigLens == IF Rich THEN <<127, 128, 255, 256, 16383, 16384, 16385, 32768, 49152, 65535, 65536, 70000>>
+           ELSE <<128, 16383, 16384, 65536>>
+BigTypes ==
+  <<TOcts(NoSz), TBits(NoSz, <<>>), TStr("IA5", NoSz, NoAl), TStr("UTF8", NoSz, NoAl), TStr("Numeric", NoSz, NoAl),
+    TOf("SEQOF", TBool, NoSz), TOf("SEQOF", TIntR(B(0), B(255), FALSE), NoSz), TOcts(Sz(0, 65535, FALSE)),
+    TOcts(Sz(0, 65536, FALSE)), TStr("Visible", Sz(0, 65536, FALSE), NoAl), TStr("BMP", NoSz, NoAl),
+    TOcts(Sz(70000, 70000, FALSE)), TBits(Sz(0, 70000, FALSE), <<>>), TOf("SETOF", TNull, NoSz)>>
+BigValues(t) ==
+  LET ok(n) == t.sz.f = "N" \/ (n >= t.sz.lb /\ (t.sz.ubinf \/ n <= t.sz.ub))
+      lens == SelectSeq(BigLens, ok)
+      one(n) == CASE t.k = "OCTS" -> [j \in 1..n |-> (j * 7) % 256]
+                  [] t.k = "BITS" -> [n |-> n, b |-> BitsToBytes([j \in 1..n |-> (j \div 3) % 2])]
+                  [] t.k = "STR" -> [j \in 1..n |-> IF t.st = "Numeric" THEN 48 + (j % 10) ELSE 65 + (j % 26)]
+                  [] t.e.k = "BOOL" -> [j \in 1..n |-> (j % 3) = 0]
+                  [] t.e.k = "NULL" -> [j \in 1..n |-> "NULL"]
+                  [] OTHER -> [j \in 1..n |-> B(j % 256)]
+  IN [i \in 1..Len(lens) |-> one(lens[i])]
 
 \* a few representatives that are wrapped at depth >= 1 when ~Rich
 Carriers ==
@@ -313,9 +347,9 @@ LegalWrap(e, w) ==
   /\ Len(w.tags) <= 1
 
 Init ==
-  /\ gDepth = 0
   /\ \E td \in TagDefs : gEnv = [tagdef |-> td, extimp |-> FALSE, types |-> [x \in {} |-> 0]]
-  /\ \E i \in 1..Len(PrimTypes) : gT = PrimTypes[i]
+  /\ \/ \E i \in 1..Len(PrimTypes) : gT = PrimTypes[i] /\ gDepth = 0
+     \/ Big /\ \E i \in 1..Len(BigTypes) : gT = BigTypes[i] /\ gDepth = BigMark
 
 IsCarrier(t) == \E i \in 1..Len(Carriers) : Carriers[i] = t
 
@@ -366,7 +400,8 @@ MaxVals == 14
 Case == [env |-> [tagdef |-> gEnv.tagdef, extimp |-> gEnv.extimp,
                   types |-> [x \in DOMAIN gEnv.types \cup {"Top"} |-> IF x = "Top" THEN gT ELSE gEnv.types[x]]],
          top |-> "Top", depth |-> gDepth,
-         vals |-> LET vs == Values(gEnv, gT, 3) IN SubSeq(vs, 1, Min2(Len(vs), MaxVals))]
+         vals |-> IF gDepth = BigMark THEN BigValues(gT)
+                  ELSE LET vs == Values(gEnv, gT, 3) IN SubSeq(vs, 1, Min2(Len(vs), MaxVals))]
 
 Emit ==
   Serialize(ToJson(Case) \o "\n", IOEnv.OUT_FILE,
